@@ -22,6 +22,9 @@ P.update({
  "C10": sx("As C09: Gaussian vectors, lambda>0, Feynman parameters as free solver variables; z3 proves L*shift = u, Q^T(k+shift) = sqrt(v/2lambda) q, Q^-1 L Q^-T = I, k+shift = pref*Q^-T q, and the composite identity sum x(|q_e|^2+m^2) = v(1+|q|^2/2lambda) where it answers in time (reported otherwise).", "§6 C10"),
  "C13": sx("Every Gaussian component of Metadata.q_vectors is proved equal to sqrt(-2 ln a) cos|sin(2 pi b) of its designated pair for D=1..6, L=1..3 (5 thorough) on every path, with ln/cos/sin uninterpreted (congruence) — any change in pairing, order or formula is a sat query that is replayed natively.", "§6 C13"),
  "C14": sx("On every path of every catalogue graph: no index panic with get_dimension() coordinates, no Ok return with one fewer, three extra coordinates yield identical terms, dependency cones of Feynman parameters / lambda / Gaussian components contain only their designated coordinates (plus a solver self-composition query), and for every coordinate a solver-produced point on some feasible path shows the result changes when only that coordinate changes.", "§6 C14", "symbolic execution + self-composition queries (z3), dependency cones of the term DAG"),
+ "C17": sx("Self-composition: one symbolic execution calls the same sampler object repeatedly (x, a different point, x, x, x under the three other settings combinations, then generate_sample_from_rng with a tagging RNG); every output of a repeated call must be the identical hash-consed term or is handed to z3 as an equality goal; the RNG path must draw exactly get_dimension() words. A hidden cache, counter or settings-dependent arithmetic produces different terms, a sat answer and a native replay.", "§6 C17", "symbolic self-composition over call histories (T=Sym), term identity + z3 equality queries"),
+ "C18": sx("Differential symbolic execution: the sampler and its serde_json::Value round trip are both executed on the same symbolic point on every path; outputs, lambda and Gaussian vectors must be identical terms or proved equal; accessors and the re-serialised value tree must coincide.", "§6 C18", "differential symbolic execution original vs restored sampler (T=Sym) + z3"),
+ "C19": sx("Observation through the user-supplied scalar on every path the solver does not prune: the list of to_f64 calls, the to_f64..from_f64 narrowings (must be exactly the Gamma draw with arguments (dod, x[2E-2], 5.0)), all from_f64 constants (must be table constants) and Narrow nodes in the dependency cone of every output; same for decompose_for_tropical and Vector called directly.", "§6 C19", "symbolic execution with narrowing log (T=Sym); solver decides path feasibility"),
 })
 NA_PENDING = "check not built yet at this commit (planned, see DESIGN.md §6); not claimed"
 NA = {
